@@ -228,6 +228,9 @@ Qed.
 Lemma den_dotslash_app s : den (dotslash ++ s) = den s.
 Proof. apply den_dot_slash. Qed.
 
+Lemma den_snoc_slash s : den (s ++ [slash]) = den s.
+Proof. rewrite den_app. cbn. now destruct (den s). Qed.
+
 Lemma join2_nonrooted a b :
   rel_ok a -> rel_ok b -> join2 a b = print_nf false (nrun false (den a) (split_on slash b)).
 Proof.
@@ -244,6 +247,7 @@ Proof.
   intros Ha Hb. unfold resolve_local. rewrite (join2_nonrooted a b Ha Hb).
   set (st := nrun false (den a) (split_on slash b)).
   assert (Hok : st_ok st) by (apply nrun_ok; [apply den_ok|apply split_segs_noslash]).
+  destruct (str_eqb _ [dot] || str_eqb _ [dot; dot]); [rewrite den_snoc_slash; now apply den_print|].
   destruct (looks_like_local _); [|rewrite den_dotslash_app]; now apply den_print.
 Qed.
 
@@ -252,6 +256,9 @@ Proof.
   intros Ha Hb. unfold resolve_local. rewrite (join2_nonrooted a b Ha Hb).
   set (st := nrun false (den a) (split_on slash b)).
   assert (Hok : st_ok st) by (apply nrun_ok; [apply den_ok|apply split_segs_noslash]).
+  destruct (str_eqb _ [dot] || str_eqb _ [dot; dot]).
+  { destruct (print_nf_head st Hok) as (c & rest & -> & Hc). split; [discriminate|].
+    cbn. now apply Ascii.eqb_neq. }
   destruct (looks_like_local _).
   - split; [now apply print_nf_nonempty|now apply print_nf_not_rooted].
   - split; [discriminate|reflexivity].
